@@ -28,6 +28,16 @@ def qm(m):
 def ssmcase(c):
     if "err" in c:
         return "CFlagS false"
+    if c["kind"] == "hmm_step":
+        if not c.get("consistent"):
+            return "CFlagS false"
+        ys = "[" + "; ".join(n(y) for y in c["ys"]) + "]"
+        path = "[" + "; ".join(n(y) for y in c["path"]) + "]"
+        return f"CHmmStep {n(c['K'])} {ql(c['pi0'])} {qm(c['A'])} {qm(c['E'])} {ys} {path} {q(c['stepp'])}"
+    if c["kind"] == "lg_step":
+        s_ = (f"{{| m0 := {ql(c['m0'])}; P0 := {qm(c['P0'])}; A_ := {qm(c['A'])}; Q_ := {qm(c['Q'])}; "
+              f"C_ := {qm(c['C'])}; R_ := {qm(c['R'])} |}}")
+        return f"CLgStep {s_} {qm(c['xs'])} {qm(c['ys'])} {q(c['lp'])}"
     if c["kind"] == "hmm_long":
         # decided by the Interval-based file (run_long); here only non-finite results are flagged
         return "CFlagS true" if c.get("skip") or c.get("finite") else "CFlagS false"
@@ -83,6 +93,30 @@ def run(ctx):
             coq_errs.append(r["error"])
         else:
             bad += [(off + i, a, s, x) for (i, a, s, x) in r["bad"]]
+    # --- the step models (discrete_hmm / linear_gaussian @gen functions) iterated through assess: overlay run
+    import overlay
+    root = ctx.ensure_overlay()
+    oenv = overlay.env_for(root)
+    oenv["PYTHONPATH"] = root + os.pathsep + common.HARNESS
+    sout = os.path.join(ctx.scratch, "ssm_steps.json")
+    pr_ = subprocess.run([common.PY, os.path.join(common.HARNESS, "worker_ssm_steps.py"), sout, str(ctx.seed * 100 + 9),
+                          str(16 if ctx.tier == "quick" else 160)], env=oenv, capture_output=True, text=True, cwd=ctx.scratch)
+    if pr_.returncode != 0 or not os.path.exists(sout):
+        worker_errs.append(pr_.stderr[-1500:])
+    else:
+        scs = json.load(open(sout))
+        svf = os.path.join(ctx.scratch, "cases_ssm_steps.v")
+        open(svf, "w").write("From Coq Require Import QArith List. Import ListNotations.\n"
+                             "From GV Require Import Model.Mat Model.Kalman Model.CorrSsm.\n"
+                             "Definition cases : list ssmcase := [\n" + ";\n".join("  " + ssmcase(c) for c in scs)
+                             + "].\nDefinition result := Eval vm_compute in ssmreport cases.\nPrint result.\n")
+        sr = common.eval_cases_files([svf])[svf]
+        off = len(cases)
+        cases.extend(scs)
+        if "error" in sr:
+            coq_errs.append(sr["error"])
+        else:
+            bad += [(off + i, a, s_, x) for (i, a, s_, x) in sr["bad"]]
     # --- long sequences: Interval decides |log marginal - ln(exact rational marginal)| <= tol
     long_idx = [i for i, c in enumerate(cases) if c["kind"] == "hmm_long" and not c.get("skip") and c.get("finite") and "err" not in c]
     verdicts = Counter()
@@ -125,6 +159,8 @@ def run(ctx):
                          "rule": "HMM: random rational initial / transition / emission tables (1-4 states, 2-4 symbols, 40% with sparse transition rows), sequences of length "
                                  "1-5: filtering distributions, marginal likelihood, sequence probability of a reachable path and the probability backward sampling assigns to it "
                                  "(logits recorded under scripted draws) compared with the forward-recursion model AND with brute-force enumeration of all state sequences; "
+                                 "step models: discrete_hmm and linear_gaussian iterated over time through assess (overlay run) on a state path / state sequence and observations: the summed log density against "
+                                 "the joint of the HMM model resp. the chain-rule Gaussian density (quadratic forms and determinants in exact rationals, exp enclosures), and the returned carry; "
                                  "HMM long: 2-3 states, 3-4 symbols, sequences of length 75-110 (quick) or 120-180 (thorough), log marginal around -100 or lower, far below the float32 exp underflow: log marginal compared with ln of the exact rational "
                                  "marginal of the vector recursion by the Interval tactic (tolerance 0.02 + 5e-5|lm|), last filtering distribution in probability space; "
                                  "Kalman: random rational models with d_state, d_obs in 1..3 (70% with d_obs != d_state), T in 1..4: filtered and smoothed moments and the log "
